@@ -28,9 +28,12 @@ class Config:
     unwind: int = 1
     fam: int = 0
     tree: int = 0              # run through parse_tree::parse with the grammar's selector (C12)
+    mi: int = 0                # control = must_if< errs, ctl >::control (C05, oracle-only part)
 
     def cpp(self, g: Grammar) -> str:
         ctl = f"{g.ns}::ctl" if self.unwind else f"{g.ns}::ctl_nu"
+        if self.mi:
+            ctl = f"{g.ns}::ctl_mi"
         if self.tree:
             return (f"vh::run_case_tree< {g.ns}::tag, {g.nodes[self.root].cpp}, {g.ns}::sel, {g.ns}::act{self.fam}, {ctl}, "
                     f"tao::pegtl::tracking_mode::{'lazy' if self.lazy else 'eager'}, {EOLS[self.eol]} >")
